@@ -3,7 +3,7 @@ NEXT Next
 CONSTANTS
   Tokens <- Toks
   MaxLen = 2
-  NSeeds = 33
+  NSeeds = 35
   MaxPos = 30
   ReplTokens <- Repl
   NScSeeds = 12
